@@ -10,6 +10,7 @@ result of `discover` on the published generation).  Props/C07.lean composes them
 set_option linter.unusedSimpArgs false
 set_option linter.unusedVariables false
 namespace Mieru.Session
+open Mieru.Discovery
 
 /-! ### generations -/
 
@@ -37,6 +38,102 @@ theorem getElem?_append_some {α} (l m : List α) (i : Nat) (x : α) (h : l[i]? 
     · have := List.getElem?_eq_none_iff.mpr hc
       rw [this] at h; cases h
   rw [List.getElem?_append_left hi]; exact h
+
+/-! ### users of a generation -/
+
+theorem userAt_some (g : Gen) (id : Nat) (u : User) (h : userAt g id = some u) :
+    1 ≤ id ∧ id ≤ g.length ∧ g[id - 1]? = some u ∧ u ∈ g := by
+  unfold userAt at h
+  split at h
+  · cases h
+  · rename_i h0
+    have hlt : id - 1 < g.length := by
+      rcases Nat.lt_or_ge (id - 1) g.length with hc | hc
+      · exact hc
+      · rw [List.getElem?_eq_none_iff.mpr hc] at h; cases h
+    exact ⟨by omega, by omega, h, List.mem_of_getElem? h⟩
+
+theorem userAt_of_mem (g : Gen) (u : User) (h : u ∈ g) :
+    ∃ id, 1 ≤ id ∧ id ≤ g.length ∧ userAt g id = some u := by
+  obtain ⟨i, hi, he⟩ := List.getElem_of_mem h
+  refine ⟨i + 1, by omega, by omega, ?_⟩
+  unfold userAt
+  simp only [Nat.add_one_ne_zero, if_false, Nat.add_sub_cancel]
+  rw [List.getElem?_eq_getElem hi, he]
+
+theorem userAt_valid (g : Gen) (id : Nat) (h1 : 1 ≤ id) (h2 : id ≤ g.length) :
+    ∃ u, userAt g id = some u := by
+  unfold userAt
+  have h0 : id ≠ 0 := by omega
+  simp only [h0, if_false]
+  have hlt : id - 1 < g.length := by omega
+  exact ⟨g[id - 1], List.getElem?_eq_getElem hlt⟩
+
+theorem authOf_true (g : Gen) (s : Seg) (id : Nat) :
+    authOf g s id = true ↔ ∃ u, userAt g id = some u ∧ s.key = some u.cred := by
+  unfold authOf
+  cases h : userAt g id with
+  | none => simp
+  | some u => simp
+
+theorem hintOf_true (g : Gen) (s : Seg) (id : Nat) :
+    hintOf g s id = true ↔ ∃ u, userAt g id = some u ∧ u.name ∈ s.hinted := by
+  unfold hintOf
+  cases h : userAt g id with
+  | none => simp
+  | some u => simp
+
+/-- `discover` looks at the generation, the mode and — of the segment — only at the seal key, the
+    hint and the cached ids -/
+theorem discover_congr (g : Gen) (m : Bool) (s s' : Seg) (hk : s'.key = s.key) (hh : s'.hinted = s.hinted)
+    (hc : s'.cached = s.cached) : discover g m s' = discover g m s := by
+  have h1 : hintOf g s' = hintOf g s := by funext id; simp [hintOf, hh]
+  have h2 : authOf g s' = authOf g s := by funext id; simp [authOf, hk]
+  unfold discover
+  rw [h1, h2, hc]
+
+theorem discover_eq_bind (g : Gen) (m : Bool) (s : Seg) :
+    discover g m s =
+      ((tryState g.length (hintOf g s) (authOf g s) s.cached m).user.map (·.1)).bind (userAt g) := by
+  unfold discover
+  cases h : (tryState g.length (hintOf g s) (authOf g s) s.cached m).user with
+  | none => rfl
+  | some p => rfl
+
+theorem lookup_mem {β} (l : List (Nat × β)) (a : Nat) (v : β) (h : l.lookup a = some v) : (a, v) ∈ l := by
+  induction l with
+  | nil => simp [List.lookup] at h
+  | cons p t ih =>
+    obtain ⟨a', v'⟩ := p
+    unfold List.lookup at h
+    by_cases he : a = a'
+    · subst he
+      simp only [beq_self_eq_true] at h
+      cases h
+      exact List.mem_cons_self
+    · have : (a == a') = false := by simpa using he
+      simp only [this] at h
+      exact List.mem_cons_of_mem _ (ih h)
+
+/-! ### the attribution invariant -/
+
+/-- (cipher key, user name) is a user of generation number `gen` -/
+def Attributed (gens : List Gen) (key user gen : Nat) : Prop :=
+  ∃ g, gens[gen]? = some g ∧ ∃ u ∈ g, u.name = user ∧ u.cred = key
+
+theorem Attributed.mono {gens : List Gen} {k u g : Nat} (h : Attributed gens k u g) (m : List Gen) :
+    Attributed (gens ++ m) k u g := by
+  obtain ⟨gg, h1, h2⟩ := h
+  exact ⟨gg, getElem?_append_some _ _ _ _ h1, h2⟩
+
+/-- every live UDP session is attributed to a user of a generation that was published, with the
+    credential whose key its cipher holds -/
+def UInv (st : UServer) : Prop := ∀ x ∈ st.sessions, Attributed st.gens x.key x.user x.gen
+
+/-- the same for TCP sessions and for established connections -/
+def TInv (st : TServer) : Prop :=
+  (∀ x ∈ st.sessions, Attributed st.gens x.key x.user x.gen) ∧
+  (∀ a k u g, (a, CState.est k u g) ∈ st.conns → Attributed st.gens k u g)
 
 /-! ### the existing-session match -/
 
